@@ -92,7 +92,8 @@ def reachable(base: type) -> list[type]:
 RAW = {"RawRequest", "RawResponse", "RawPositiveResponse", "RawNegativeResponse"}
 
 REQ_KIND_OVERRIDE = {"ReportMostRecentFirstTestFailedDTCRequest": "ReportMostRecentTestFailedDTC"}
-RESP_KIND_OVERRIDE = {"ReportMostrecentConfirmedDTCResponse": "ReportMostRecentConfirmedDTC"}
+RESP_KIND_OVERRIDE = {"ReportMostrecentConfirmedDTCResponse": "ReportMostRecentConfirmedDTC",
+                      "NegativeResponse": "NegativeResponse"}
 
 
 def req_kind(cls: type) -> str:
